@@ -112,6 +112,8 @@ def genesisPre (g : Genesis) : State :=
     let st2 := { st1 with sign := aset st1.sign e.1 { start := 0, offset := 0, missed := 0, jailedUntil := 0, tomb := false },
                           rel := e.1 :: st1.rel, supply := st1.supply + e.2 }
     setBal st2 st2.pool (balOf st2 st2.pool + e.2)) s1
+  let s2 := { s2 with sign := g.signing.foldl (fun m e => aset m e.1 e.2) s2.sign,
+                      missedBits := g.missed.foldl (fun m e => bitSet m e.1.1 e.1.2 e.2) s2.missedBits }
   mint s2 s2.daoAcc g.daoTokens
 
 theorem genesis_eq (g : Genesis) :
@@ -130,7 +132,9 @@ theorem genesisPre_prev (g : Genesis) : (genesisPre g).prev = [] := by
   simp only [genesisPre]
   show (mint _ _ _).prev = []
   have hm : ∀ s a x, (mint s a x).prev = s.prev := fun _ _ _ => rfl
-  rw [hm, foldl_prev_nil, foldl_prev_nil]
+  rw [hm]
+  show State.prev (List.foldl _ _ _) = []
+  rw [foldl_prev_nil, foldl_prev_nil]
   · intro st e; rfl
   · intro st e
     show (setBal _ _ _).prev = st.prev
